@@ -1,6 +1,6 @@
 """C10 — mpmc: no lost wake-up for receivers or senders (necessary rules)."""
 from rl import (method_role, entry_methods, loc_endswith, path_cond, trace_summary, where, const_of, fmt_val, fmt_loc, fields_of)
-from common import (w3_waker_use, w4_pending_stores_waker, w4_helper, contains, own_node_roots, poll_variant)
+from common import (w3_waker_use, w4_pending_stores_waker, w4_helper, contains, own_node_roots, poll_variant, waker_escapes)
 from engine import NONE
 from lib import CheckerError
 
@@ -159,6 +159,14 @@ def run(C, R):
                         k = E.variant_known(path.facts, x)
                         woke = any(w['k'] == 'wake' and w['waker'] in (x, inner) for w in path.events) or \
                             (k == ('eq', 'None'))
+                        if not woke:
+                            esc = waker_escapes(path, (x, inner))
+                            if esc is not None:
+                                raise CheckerError(
+                                    'cannot judge %s: the wakers of the drained waiters are handed to caller-visible '
+                                    'storage (%s) instead of being woken in the drain closure; this rule does not '
+                                    'follow a collection of wakers to the place where it is woken'
+                                    % (close['path'], where(F, esc)))
                     drained[fields_of(e['queue'])[-1]] = woke
             if drained.get('receive_waiters') and drained.get('send_waiters'):
                 R.ok('C10.R4', '%s|%s' % (close['path'], path_cond(E, path)))
